@@ -8,6 +8,8 @@
 (*   Commit           git add -A; git commit        (new commit, tree clean)*)
 (*   Checkout(c)      git checkout --detach <c>     (HEAD /= branch tip)   *)
 (*   UserTag(n, k)    git tag [-a] n                (lightweight/annotated)*)
+(*   Alias(n, m)      git tag n m   (m annotated: n and m SHARE one tag    *)
+(*                    object: major <- full, or an alias <- major)         *)
 (*   Touch(d)         make the work tree dirty in way d                    *)
 (*   Bump(v)          write another VERSION into mockery-tools.env (kept   *)
 (*                    outside the work tree); only in the simulated long   *)
@@ -34,7 +36,7 @@ CONSTANTS TagNames,     \* names the maintainer may create
           BumpTo,       \* VERSION strings the maintainer may switch to between invocations ({} = never)
           MaxCommits, MaxHist
 
-VARIABLES tags,      \* name -> [c |-> commit, k |-> kind]
+VARIABLES tags,      \* name -> [c |-> commit, k |-> kind, s |-> name whose tag object it was created from, or ""]
           head,      \* commit HEAD resolves to
           ncommits,  \* commits are 1..ncommits
           dirty,     \* "clean" or a member of DirtyKinds
@@ -79,9 +81,21 @@ Checkout(c) == /\ Idle /\ c \in 1..ncommits /\ c # head /\ Clean(dirty)
                /\ UNCHANGED <<tags, ncommits, dirty, version, pc, run>>
 
 UserTag(n, k) == /\ Idle /\ n \notin DOMAIN tags
-                 /\ tags' = Extend(tags, n, [c |-> head, k |-> k])
+                 /\ tags' = Extend(tags, n, [c |-> head, k |-> k, s |-> ""])
                  /\ Log([op |-> "usertag", name |-> n, kind |-> k])
                  /\ UNCHANGED <<head, ncommits, dirty, version, pc, run>>
+
+\* a second ref on the tag OBJECT of an existing annotated tag (`git tag n m`).  Two shapes are generated:
+\* the floating major tag made from a release tag (`git tag v3 v3.0.1`), and a non-version alias made from the
+\* major tag (`git tag latest v3`).  (A release NAME put on the major tag's object is left out on purpose: the
+\* tool reads the name stored in the tag object, not the ref name -- see the report of checks/c20.py.)
+IsMajorName(x) == \E r \in DOMAIN ReqTable : ReqTable[r].valid /\ ReqTable[r].majorname = x
+Alias(n, m) == /\ Idle /\ n \notin DOMAIN tags /\ m \in DOMAIN tags /\ tags[m].k = "annotated"
+               /\ \/ IsMajorName(n) /\ NameTable[m].full
+                  \/ IsMajorName(m) /\ ~NameTable[n].parsable
+               /\ tags' = Extend(tags, n, [c |-> tags[m].c, k |-> "annotated", s |-> m])
+               /\ Log([op |-> "alias", name |-> n, src |-> m])
+               /\ UNCHANGED <<head, ncommits, dirty, version, pc, run>>
 
 Touch(d) == /\ Idle /\ dirty = "clean"
             /\ dirty' = d
@@ -130,13 +144,13 @@ RunGate(flag) ==
 \* tag.go:67-84: DeleteTag (failure ignored) then CreateTag with a Tagger => annotated tag at repo.Head()
 RunTagFull ==
   /\ pc = "full"
-  /\ tags' = Extend(tags, FullName(version), [c |-> head, k |-> "annotated"])
+  /\ tags' = Extend(tags, FullName(version), [c |-> head, k |-> "annotated", s |-> ""])
   /\ pc' = "major"
   /\ UNCHANGED <<head, ncommits, dirty, version, run, hist>>
 
 RunTagMajor ==
   /\ pc = "major"
-  /\ tags' = Extend(tags, MajorName(version), [c |-> head, k |-> "annotated"])
+  /\ tags' = Extend(tags, MajorName(version), [c |-> head, k |-> "annotated", s |-> ""])
   /\ pc' = "exit"
   /\ UNCHANGED <<head, ncommits, dirty, version, run, hist>>
 
@@ -155,6 +169,7 @@ RunExit ==
 Next == \/ Commit
         \/ \E c \in 1..MaxCommits : Checkout(c)
         \/ \E n \in TagNames, k \in Kinds : UserTag(n, k)
+        \/ \E n \in TagNames, m \in TagNames : Alias(n, m)
         \/ \E d \in DirtyKinds : Touch(d)
         \/ \E v \in BumpTo : Bump(v)
         \/ \E f \in Flags : RunGate(f)
@@ -170,6 +185,7 @@ SimNext == \/ /\ Len(hist) % 2 = 1
               /\ \/ Commit
                  \/ \E c \in 1..MaxCommits : Checkout(c)
                  \/ \E n \in TagNames, k \in Kinds : UserTag(n, k)
+                 \/ \E n \in TagNames, m \in DOMAIN tags : Alias(n, m)
                  \/ \E d \in DirtyKinds : Touch(d)
                  \/ \E v \in BumpTo : Bump(v)
            \/ RunTagFull \/ RunTagMajor \/ RunExit
